@@ -42,6 +42,10 @@ def reconfig(tier, seed):
     runs.append(dict(cfg='PopReconfig_walks.cfg', mode='exhaustive, every history of MaxOps=4 calls exported',
                      histories=len(r.records), **_summ(r)))
     recs = list(r.records)
+    if tier == 'quick':
+        # half of the histories, chosen by content and rotating with the seed (the thorough tier replays all of them)
+        from .common import digest
+        recs = [x for x in recs if int(digest(x), 16) % 2 == seed % 2]
     if tier == 'thorough':
         for k in range(4):
             w = tlc.simulate('MC_PopReconfig', 'PopReconfig_long.cfg', 400, 60, seed=seed * 10 + k)
@@ -107,7 +111,7 @@ def ctrl_life(tier, seed):
     # ---- code -> spec: recorded controller events validated by TLC against Trace_CtrlLife ------------------------
     from . import validate_traces
     traces = [dict(name='history-%d' % k, trace=t) for k, (_, _, t) in enumerate(res) if t]
-    traces += repo_ctrl_traces()
+    traces += repo_ctrl_traces(tier)
     vres, verdicts = validate_traces.validate_ctrl([t['trace'] for t in traces], tag='c17')
     runs.append(dict(cfg='Trace_CtrlLife', mode='trace validation: %d recorded traces, %d events' % (
         len(traces), sum(len(t['trace']) for t in traces)), **_summ(vres)))
@@ -132,7 +136,7 @@ def ctrl_life(tier, seed):
     return runs, uniq, [(f, c) for f, c, _ in res] + [(tfails, {'ctrl_traces': len(traces)})]
 
 
-def repo_ctrl_traces():
+def repo_ctrl_traces(tier='thorough'):
     """the repository's own controller / inference / predictive tests, run on RefSim with the controller recorder on"""
     import os
     import subprocess
@@ -141,7 +145,8 @@ def repo_ctrl_traces():
     out = os.path.join(WORK, 'ctrl-traces-%d.json' % os.getpid())
     env = dict(os.environ, VERIF_TRACE_OUT=out, PYTHONPATH=VERIF + os.pathsep + CHI_SRC)
     cmd = [sys.executable, '-m', 'pytest', '-q', '-p', 'no:cacheprovider', '-p', 'harness.ctrl_trace_plugin',
-           'chi/tests/test_problems.py', 'chi/tests/test_inference.py', 'chi/tests/test_predictive_models.py']
+           'chi/tests/test_problems.py'] + (['chi/tests/test_inference.py', 'chi/tests/test_predictive_models.py']
+                                            if tier == 'thorough' else [])
     p = subprocess.run(cmd, cwd=CHI_SRC, env=env, stdout=subprocess.PIPE, stderr=subprocess.STDOUT, text=True, timeout=1800)
     if not os.path.exists(out):
         raise MachineryError('repository tests produced no controller traces:\n' + p.stdout[-2000:])
@@ -184,7 +189,7 @@ def run(tier, seed):
         cov['transitions'] += sum(r['transitions'] for r in runs)
         cov['traces_validated_against_impl'] += len(uniq)
         cov['reconfiguration_histories_replayed'] = len(uniq)
-        cov['rule'] += ('; plus module PopReconfig: every history of 4 reconfiguration calls (and, thorough, random walks '
+        cov['rule'] += ('; plus module PopReconfig: every history of 4 reconfiguration calls (quick: a content-chosen half; thorough: all, and random walks '
                         'of up to 8) on six compositions, replayed on the real objects, counts/names/IDs/vector and '
                         'gradient lengths compared after every call and at the end; plus module CtrlLife: every history of 4 '
                         'configuration calls of the problem controller (thorough: walks of 8), names / counts / prior held after '
